@@ -612,6 +612,7 @@ func runC11(c *Ctx) {
 	c.Extra("pairs", pairs)
 
 	c11Primitives(c)
+	c11BufferDiscipline(c)
 	c11Narrowing(c, progs)
 	c11Determinism(c, progs)
 	c11V1Currency(c, progs)
@@ -1259,4 +1260,98 @@ func c11Primitives(c *Ctx) {
 	}
 	c.Min("primitive-symmetry", 6)
 	_ = n
+}
+
+// c11BufferDiscipline: the Encoder stages bytes in buf[:n]. Anything handed to the underlying writer directly
+// reaches the stream BEFORE the staged bytes unless those were flushed first. So every direct write of the
+// underlying writer inside the Encoder's methods is either the flush itself (the argument is buf[:n]) or is
+// preceded, with no staging in between, by an unconditional Flush of the same Encoder.
+func c11BufferDiscipline(c *Ctx) {
+	const rule = "buffer-discipline"
+	enc := c.P.NamedType("types", "Encoder")
+	if enc == nil {
+		c.Undecided(rule, "types.Encoder", "", "type does not resolve")
+		return
+	}
+	st, _ := enc.Underlying().(*types.Struct)
+	fieldName := func(fa *ssa.FieldAddr) string {
+		pt, ok := fa.X.Type().Underlying().(*types.Pointer)
+		if !ok || typeName(pt.Elem()) != "types.Encoder" || st == nil || fa.Field >= st.NumFields() {
+			return ""
+		}
+		return st.Field(fa.Field).Name()
+	}
+	n := 0
+	for _, fn := range SortedFuncs(c.P.AllFuncs()) {
+		if !c.P.InModule(fn) || fn.Pkg == nil || relPkg(fn.Pkg.Pkg) != "types" || fn.Synthetic != "" {
+			continue
+		}
+		for _, b := range fn.Blocks {
+			for _, in := range b.Instrs {
+				call, ok := in.(*ssa.Call)
+				if !ok || !call.Call.IsInvoke() || call.Call.Method == nil || call.Call.Method.Name() != "Write" || len(call.Call.Args) != 1 {
+					continue
+				}
+				// receiver: load of Encoder.w
+				ld, ok := call.Call.Value.(*ssa.UnOp)
+				if !ok {
+					continue
+				}
+				wfa, ok := ld.X.(*ssa.FieldAddr)
+				if !ok || fieldName(wfa) != "w" {
+					continue
+				}
+				n++
+				where := c.P.Pos(call.Pos())
+				inst := FuncName(fn)
+				// the flush itself: buf[:n]
+				if sl, ok := call.Call.Args[0].(*ssa.Slice); ok && sl.Low == nil && sl.High != nil {
+					bfa, ok1 := sl.X.(*ssa.FieldAddr)
+					hl, ok2 := sl.High.(*ssa.UnOp)
+					if ok1 && ok2 && fieldName(bfa) == "buf" {
+						if nfa, ok := hl.X.(*ssa.FieldAddr); ok && fieldName(nfa) == "n" {
+							c.OK(rule, inst, where, "writes the staged bytes buf[:n] (the flush)")
+							continue
+						}
+					}
+				}
+				// otherwise: an unconditional Flush precedes with no staging in between
+				flushed := false
+				for _, fb := range fn.Blocks {
+					for _, fin := range fb.Instrs {
+						fc, ok := fin.(*ssa.Call)
+						if !ok {
+							continue
+						}
+						f := fc.Call.StaticCallee()
+						if f == nil || canonStar(f.String()) != "(go.sia.tech/core/types.Encoder).Flush" || !instrPrecedes(fc, call) {
+							continue
+						}
+						staged := false
+						for _, sb := range fn.Blocks {
+							if !(sb == fb || fb.Dominates(sb)) || !(sb == b || sb.Dominates(b)) {
+								continue
+							}
+							for _, sin := range sb.Instrs {
+								s, ok := sin.(*ssa.Store)
+								if !ok {
+									continue
+								}
+								if sfa, ok := s.Addr.(*ssa.FieldAddr); ok && fieldName(sfa) == "n" {
+									if (sb != fb || instrPrecedes(fc, s)) && (sb != b || instrPrecedes(s, call)) {
+										staged = true
+									}
+								}
+							}
+						}
+						if !staged {
+							flushed = true
+						}
+					}
+				}
+				c.Check(flushed, rule, inst, where, ifElse(flushed, "a direct write of the underlying stream, preceded by a Flush of the staged bytes", "bytes are handed to the underlying stream directly while earlier fields may still sit in the Encoder's buffer (no unconditional Flush precedes): the stream receives them out of order"))
+			}
+		}
+	}
+	c.Check(n >= 1, rule, "inventory", "", fmt.Sprintf("%d direct writes of the Encoder's underlying stream examined", n))
 }
